@@ -88,7 +88,7 @@ Qed.
 Example ex_old_period : state_after (2 ^ 2 + 5) 42 mod 2 ^ Z.of_nat 2 = state_after 5 42 mod 2 ^ Z.of_nat 2.
 Proof. apply (c14_old_low_bits_periodic 2 5 42). lia. Qed.
 Example ex_fair4 : exists seed, In seed (seeds_for 4) /\ 0 <= seed < 2 ^ 64 /\ shuffle_rng seed (zseq 4) = Some [1; 0; 2; 3].
-Proof. apply c14_fairness_partial; [left; reflexivity|apply perm_swap]. Qed.
+Proof. apply c14_fairness_partial; [lia|apply perm_swap]. Qed.
 Example ex_fair6_run : shuffle_rng 4720 (zseq 6) <> None /\ length seeds6 = 720%nat.
 Proof. split; [vm_compute; discriminate|reflexivity]. Qed.
 
